@@ -390,16 +390,18 @@ def optimiser3_allow(p: int, o1: int, v1: int, o2: int, v2: int, o3: int, v3: in
 
 
 # ---- the three routes a filter can take: query argument, attached to a source, passed down by a composite
-RF = [Filter("type", "=", "malware"), Filter("name", "!=", "n1"), Filter("created", ">", "2018-01-01T00:00:00Z"), Filter("id", "in", IDS[:3])]
+RF = [Filter("type", "=", "malware"), Filter("name", "!=", "n1"), Filter("created", ">", "2018-01-01T00:00:00Z"), Filter("id", "in", IDS[:3]),
+      Filter("modified", "<", "2020-01-02T00:00:00Z")]          # the last one holds for the first version of an id and fails for the second
+NRF = len(RF)
 PLACES = 4      # 0 query argument, 1 attached to member A, 2 attached to member B, 3 attached to the composite
 
 
 def routes(f1: int, pl1: int, f2: int, pl2: int, swap: bool, split: int) -> bool:
     """
-    pre: 0 <= f1 < 4 and 0 <= f2 < 4 and 0 <= pl1 < 4 and 0 <= pl2 < 4 and 0 <= split <= 2
+    pre: 0 <= f1 < NRF and 0 <= f2 < NRF and 0 <= pl1 < 4 and 0 <= pl2 < 4 and 0 <= split <= 2
     post: _
     """
-    f1, f2, pl1, pl2, swap, split = pick(f1, 4), pick(f2, 4), pick(pl1, 4), pick(pl2, 4), pickb(swap), pick(split, 3)
+    f1, f2, pl1, pl2, swap, split = pick(f1, NRF), pick(f2, NRF), pick(pl1, 4), pick(pl2, 4), pickb(swap), pick(split, 3)
     with Native():
         ok = run_routes_case(f1, pl1, f2, pl2, swap, split)
     V.reached()
@@ -440,4 +442,23 @@ def run_routes_case(f1, pl1, f2, pl2, swap, split):
     # a member queried directly applies its own attached filters, and only those
     if sorted(key(o) for o in A.query(list(query))) != naive(a_objs, fa):
         return False
-    return sorted(key(o) for o in B.query(list(query))) == naive(b_objs, fb)
+    if sorted(key(o) for o in B.query(list(query))) != naive(b_objs, fb):
+        return False
+    # "filters attached to a source apply to every one of its answers": all_versions and get too (get answers with the newest stored version
+    # if it passes, else nothing)
+    for id_ in IDS:
+        for src, pool, extra in ((A, a_objs, fa), (B, b_objs, fb)):
+            mine = [o for o in pool if o["id"] == id_]
+            want_all = sorted({key(o) for o in apply_common_filters(mine, extra)})
+            if sorted({key(o) for o in src.all_versions(id_)}) != want_all:
+                return False
+            newest = max(mine, key=lambda o: o["modified"]) if mine else None
+            g = src.get(id_)
+            ok_newest = newest is not None and next(apply_common_filters([newest], extra), None) is not None
+            if (g is None) == ok_newest or (g is not None and key(g) != key(newest)):
+                return False
+        want_c = sorted(set(x for pool, extra in ((a_objs, fa + fc), (b_objs, fb + fc)) for x in
+                            (key(o) for o in apply_common_filters([o for o in pool if o["id"] == id_], extra))))
+        if sorted({key(o) for o in comp.all_versions(id_)}) != want_c:
+            return False
+    return True
